@@ -31,6 +31,7 @@ import (
 	"time"
 
 	"go.minekube.com/gate/pkg/edition/java/proto/packet"
+	"go.minekube.com/gate/pkg/edition/java/proto/packet/plugin"
 	"go.minekube.com/gate/pkg/edition/java/proto/packet/title"
 	"go.minekube.com/gate/pkg/edition/java/proto/state"
 	"go.minekube.com/gate/pkg/edition/java/proto/version"
@@ -114,8 +115,10 @@ type handler44 struct {
 	name         string
 	mu           sync.Mutex
 	disconnected int
+	activated    int
 	handled      []int // sequence numbers of packets handled
 	behave       func(n int, pc *proto.PacketContext)
+	onActivated  func() // what the handler does when it becomes the active one (real handlers write / disconnect there)
 }
 
 func (h *handler44) HandlePacket(pc *proto.PacketContext) {
@@ -131,7 +134,15 @@ func (h *handler44) HandlePacket(pc *proto.PacketContext) {
 	}
 }
 func (h *handler44) Disconnected() { h.mu.Lock(); h.disconnected++; h.mu.Unlock() }
-func (h *handler44) Activated()    {}
+func (h *handler44) Activated() {
+	h.mu.Lock()
+	h.activated++
+	fn := h.onActivated
+	h.mu.Unlock()
+	if fn != nil {
+		fn()
+	}
+}
 func (h *handler44) Deactivated()  {}
 func (h *handler44) count() int    { h.mu.Lock(); defer h.mu.Unlock(); return h.disconnected }
 
@@ -142,6 +153,10 @@ type f44 struct {
 	base  *conn44
 	mc    *minecraftConn
 	h     *handler44
+	h2    *handler44 // a second session handler (configuration state) for the handler-swap scenarios
+	// noHandler: the connection never had a session handler, so there is no session to tear down; the
+	// rest of the teardown (underlying connection closed once, writes refused) is still due
+	noHandler bool
 	mu    sync.Mutex
 	ops   []*op44
 	limit int
@@ -161,23 +176,36 @@ type op44 struct {
 	cancel       bool // cancellation of the parent context (no close path)
 }
 
-func new44(e *dualrun.Env, in []byte) *f44 {
+func new44(e *dualrun.Env, in []byte) *f44 { return new44x(e, in, true) }
+
+// new44x: withHandler=false leaves the connection without any session handler (a connection that is
+// closed before its first handler was installed).
+func new44x(e *dualrun.Env, in []byte, withHandler bool) *f44 {
 	base := &conn44{in: in}
 	// the connection's context derives from a cancellable parent (in production the parent is the
 	// accepted connection's / the proxy's context); cancelling it makes Closed(c) true WITHOUT any close
 	// path having run
 	parent, cancel := context.WithCancel(context.Background())
 	conn, _ := NewMinecraftConn(parent, base, proto.ServerBound, time.Second, time.Second, -1, nil)
-	f := &f44{e: e, base: base, mc: conn.(*minecraftConn), h: &handler44{name: "h1"}, cancelParent: cancel}
+	f := &f44{e: e, base: base, mc: conn.(*minecraftConn), h: &handler44{name: "h1"}, h2: &handler44{name: "h2"}, cancelParent: cancel}
 	f.mc.SetProtocol(version.Minecraft_1_21_4.Protocol)
-	f.mc.SetActiveSessionHandler(state.Play, f.h)
+	f.noHandler = !withHandler
+	if withHandler {
+		f.mc.SetActiveSessionHandler(state.Play, f.h)
+	} else {
+		f.mc.SetState(state.Play)
+	}
 	e.OnPoint(func() {
-		if n := f.h.disconnected; n > 1 {
-			e.Fail("teardown-twice", "SessionHandler.Disconnected has run %d times", n)
+		if n := f.h.disconnected + f.h2.disconnected; n > 1 {
+			e.Fail("teardown-twice", "SessionHandler.Disconnected has run %d times (h1 %d, h2 %d)", n, f.h.disconnected, f.h2.disconnected)
 		}
 	})
 	return f
 }
+
+// teardowns is the number of session teardowns over ALL handlers the connection ever had: the statement
+// speaks about the connection's teardown, whichever handler happens to be active when it closes.
+func (f *f44) teardowns() int { return f.h.count() + f.h2.count() }
 
 func (f *f44) do(kind string, closing, write bool, fn func() error) *op44 {
 	o := &op44{kind: kind, closing: closing, write: write}
@@ -218,6 +246,49 @@ func (f *f44) failingWrite() {
 	}
 }
 
+// failingVia: the peer is gone; whichever write entry point notices it must report the error and close
+// the connection (-> teardown). Small payloads are buffered and fail in the flush, payloads larger than
+// the 4096-byte write buffer fail inside the encoder's write itself - two different close-on-error sites
+// per entry point.
+func (f *f44) failingVia(kind string) {
+	f.base.failWrites()
+	small := []byte{0x26, 0, 0, 0, 0, 0, 0, 0, 6}
+	large := make([]byte, 6000)
+	large[0] = 0x26
+	var fn func() error
+	switch kind {
+	case "Write":
+		fn = func() error { return f.mc.Write(small) }
+	case "Write(large)":
+		fn = func() error { return f.mc.Write(large) }
+	case "BufferPayload(large)":
+		fn = func() error { return f.mc.BufferPayload(large) }
+	case "BufferPacket(large)":
+		fn = func() error { return f.mc.BufferPacket(&plugin.Message{Channel: "verif:c44", Data: large}) }
+	case "BufferPayload+Flush":
+		fn = func() error {
+			if err := f.mc.BufferPayload(small); err != nil {
+				return err
+			}
+			return f.mc.Flush()
+		}
+	case "BufferPacket+Flush":
+		fn = func() error {
+			if err := f.mc.BufferPacket(&packet.KeepAlive{RandomID: 7}); err != nil {
+				return err
+			}
+			return f.mc.Flush()
+		}
+	default:
+		panic(kind)
+	}
+	o := f.do(kind+"(failing)", true, true, fn)
+	o.entryGuarded = true
+	if o.err == nil {
+		f.e.Fail("write-error-swallowed", "%s on a connection whose writes fail returned nil", kind)
+	}
+}
+
 // the four ways to write
 func (f *f44) writes() {
 	f.do("WritePacket", false, true, func() error { return f.mc.WritePacket(&packet.KeepAlive{RandomID: 2}) })
@@ -228,7 +299,7 @@ func (f *f44) writes() {
 
 func (f *f44) finish(expectClosed bool) {
 	f.e.AtEnd(func() {
-		n := f.h.count()
+		n := f.teardowns()
 		var hist []string
 		for _, o := range f.ops {
 			e := "nil"
@@ -261,7 +332,11 @@ func (f *f44) finish(expectClosed bool) {
 				ranClose = o.kind
 			}
 		}
-		if ranClose != "" && n != 1 {
+		if f.noHandler {
+			if n != 0 {
+				f.e.Fail("teardown-count", "no session handler was ever installed, yet Disconnected ran %d times; %s", n, h)
+			}
+		} else if ranClose != "" && n != 1 {
 			f.e.Fail("teardown-count", "a close path ran (%s), SessionHandler.Disconnected ran %d times, want exactly 1; %s", ranClose, n, h)
 		}
 		if ranClose != "" && f.base.closes != 1 {
@@ -424,6 +499,102 @@ func scenarios44() []dualrun.Scenario {
 				f.do("SwitchSessionHandler(Play)", true, false, func() error { f.mc.SwitchSessionHandler(state.Play); return nil })
 			},
 			"b": func(f *f44) { f.close() }}),
+		// ---- every write entry point closes on an I/O error (buffered -> fails in the flush; larger than the
+		// write buffer -> fails in the write itself) ----
+		mk("failing-Write-vs-Close", 3, U, nil, nil, th{
+			"a": func(f *f44) { f.failingVia("Write"); f.writes() },
+			"b": func(f *f44) { f.close() }}),
+		mk("failing-Write(large)-vs-Close", 3, U, nil, nil, th{
+			"a": func(f *f44) { f.failingVia("Write(large)"); f.writes() },
+			"b": func(f *f44) { f.close() }}),
+		mk("failing-BufferPayload(large)-vs-Close", 3, U, nil, nil, th{
+			"a": func(f *f44) { f.failingVia("BufferPayload(large)"); f.writes() },
+			"b": func(f *f44) { f.close() }}),
+		mk("failing-BufferPacket(large)-vs-Close", 3, U, nil, nil, th{
+			"a": func(f *f44) { f.failingVia("BufferPacket(large)"); f.writes() },
+			"b": func(f *f44) { f.close() }}),
+		mk("failing-BufferPayload+Flush-vs-failing-BufferPacket+Flush", 3, U, nil, nil, th{
+			"a": func(f *f44) { f.failingVia("BufferPayload+Flush"); f.writes() },
+			"b": func(f *f44) { f.failingVia("BufferPacket+Flush") }}),
+		// ---- the session handler is swapped (login -> configuration -> play do that) while the connection
+		// closes: the teardown runs once in total, on whichever handler is the active one ----
+		mk("handler-swap/SetActiveSessionHandler-vs-Close", 3, U, nil, nil, th{
+			"a": func(f *f44) {
+				f.do("SetActiveSessionHandler(Config,h2)", false, false, func() error { f.mc.SetActiveSessionHandler(state.Config, f.h2); return nil })
+				f.writes()
+			},
+			"b": func(f *f44) { f.close() }}),
+		mk("handler-swap/SwitchSessionHandler-vs-Close", 3, U, nil, func(f *f44) { f.mc.AddSessionHandler(state.Config, f.h2) }, th{
+			"a": func(f *f44) {
+				f.do("SwitchSessionHandler(Config->h2)", false, false, func() error { f.switchTo(state.Config); return nil })
+				f.writes()
+			},
+			"b": func(f *f44) { f.close() }}),
+		mk("handler-swap/SwitchSessionHandler-vs-readloop-EOF-vs-failing-write", 2, 3, nil, func(f *f44) { f.mc.AddSessionHandler(state.Config, f.h2) }, th{
+			"a": func(f *f44) {
+				f.do("SwitchSessionHandler(Config->h2)", false, false, func() error { f.switchTo(state.Config); return nil })
+			},
+			"b": func(f *f44) { f.readLoop() },
+			"c": func(f *f44) { f.failingWrite() }}),
+		// ---- re-entrancy: the handler that is being activated closes the connection itself - directly (the
+		// auth handler disconnects a rejected player in Activated) or through a write that fails (the play
+		// handlers send their channel registrations in Activated) ----
+		mk("activated-closes/SetActiveSessionHandler", U, U, nil, func(f *f44) {
+			f.h2.onActivated = func() { _ = f.mc.Close() }
+		}, th{
+			"a": func(f *f44) {
+				f.do("SetActiveSessionHandler(Config,h2 closing in Activated)", true, false, func() error { f.mc.SetActiveSessionHandler(state.Config, f.h2); return nil })
+				f.writes()
+			}}),
+		mk("activated-closes/SwitchSessionHandler", U, U, nil, func(f *f44) {
+			f.mc.AddSessionHandler(state.Config, f.h2)
+			f.h2.onActivated = func() { _ = f.mc.Close() }
+		}, th{
+			"a": func(f *f44) {
+				f.do("SwitchSessionHandler(Config->h2 closing in Activated)", true, false, func() error { f.switchTo(state.Config); return nil })
+				f.writes()
+			}}),
+		mk("activated-writes-into-failing-conn/SetActiveSessionHandler-vs-Close", 3, U, nil, func(f *f44) {
+			f.h2.onActivated = func() { _ = f.mc.WritePacket(&packet.KeepAlive{RandomID: 8}) }
+		}, th{
+			"a": func(f *f44) {
+				f.base.failWrites()
+				f.do("SetActiveSessionHandler(Config,h2 writing in Activated)", true, false, func() error { f.mc.SetActiveSessionHandler(state.Config, f.h2); return nil })
+				f.writes()
+			},
+			"b": func(f *f44) { f.close() }}),
+		mk("activated-writes-into-failing-conn/SwitchSessionHandler", U, U, nil, func(f *f44) {
+			f.mc.AddSessionHandler(state.Config, f.h2)
+			f.h2.onActivated = func() { _ = f.mc.WritePacket(&packet.KeepAlive{RandomID: 8}) }
+		}, th{
+			"a": func(f *f44) {
+				f.base.failWrites()
+				f.do("SwitchSessionHandler(Config->h2 writing in Activated)", true, false, func() error { f.switchTo(state.Config); return nil })
+				f.writes()
+			}}),
+		mk("activated-writes-into-failing-conn/SwitchSessionHandler-vs-Close", 3, U, nil, func(f *f44) {
+			f.mc.AddSessionHandler(state.Config, f.h2)
+			f.h2.onActivated = func() { _ = f.mc.WritePacket(&packet.KeepAlive{RandomID: 8}) }
+		}, th{
+			"a": func(f *f44) {
+				f.base.failWrites()
+				f.do("SwitchSessionHandler(Config->h2 writing in Activated)", true, false, func() error { f.switchTo(state.Config); return nil })
+			},
+			"b": func(f *f44) { f.close(); f.writes() }}),
+		// ---- a connection that never got a session handler (closed before the first one was installed) ----
+		{Name: "no-handler/Close-vs-failing-write", Quick: 3, Thorough: U, Body: func(e *dualrun.Env) {
+			f := new44x(e, nil, false)
+			e.Go("a", func() { f.close(); f.writes() })
+			e.Go("b", func() { f.failingWrite() })
+			f.finish(true)
+		}},
+	}
+}
+
+// switchTo switches to the handler registered for the state; the switch must take place.
+func (f *f44) switchTo(reg *state.Registry) {
+	if !f.mc.SwitchSessionHandler(reg) {
+		f.e.Fail("switch-refused", "SwitchSessionHandler(%v) = false although a handler is registered for that state", reg)
 	}
 }
 
